@@ -96,6 +96,8 @@ const RTO_BETA: f64 = 0.25;
 // SCTP Constants
 const SCTP_COMMON_HEADER_SIZE: usize = 12;
 const CHUNK_HEADER_SIZE: usize = 4;
+/// HEARTBEAT chunks of one received packet that are answered (each answer is a packet of its own).
+const MAX_HEARTBEATS_ANSWERED_PER_PACKET: usize = 2;
 const MAX_SCTP_PACKET_SIZE: usize = 1200;
 const DEFAULT_MAX_PAYLOAD_SIZE: usize = 1172; // 1200 - 12 (common) - 16 (data header)
 const DUP_THRESH: u8 = 3;
@@ -1643,6 +1645,9 @@ impl SctpInner {
             }
         }
 
+        // One HEARTBEAT per packet is all a well-behaved peer sends (RFC 4960 §8.3);
+        // a packet stuffed with them must not buy one sealed reply datagram each.
+        let mut heartbeats_answered = 0usize;
         while buf.has_remaining() {
             if buf.remaining() < CHUNK_HEADER_SIZE {
                 break;
@@ -1672,7 +1677,12 @@ impl SctpInner {
                 CT_COOKIE_ACK => self.handle_cookie_ack(chunk_value).await?,
                 CT_DATA => self.handle_data(chunk_flags, chunk_value).await?,
                 CT_SACK => self.handle_sack(chunk_value).await?,
-                CT_HEARTBEAT => self.handle_heartbeat(chunk_value).await?,
+                CT_HEARTBEAT => {
+                    if heartbeats_answered < MAX_HEARTBEATS_ANSWERED_PER_PACKET {
+                        heartbeats_answered += 1;
+                        self.handle_heartbeat(chunk_value).await?;
+                    }
+                }
                 CT_HEARTBEAT_ACK => {
                     trace!("SCTP HEARTBEAT ACK received");
                     self.association_error_count.store(0, Ordering::SeqCst);
